@@ -44,15 +44,22 @@ def main():
                                    "--exclude", "*.pdf", "--exclude", "tests",
                                    "/repo/", tmp + "/"])
             edits = m.get("edits") or [m]
+            stale = False
             for e in edits:
                 path = os.path.join(tmp, e["file"])
                 src = open(path).read()
                 cnt = src.count(e["old"])
                 want = e.get("count", 1)
                 if cnt < 1 or (want != "all" and cnt != want):
-                    raise SystemExit("mutant %s: pattern occurs %d times in %s (want %s)"
-                                     % (m["id"], cnt, e["file"], want))
+                    # (the tree moved on under the mutant, e.g. a fix commit: say so and go on)
+                    print("%s %-6s STALE: pattern occurs %d times in %s (want %s)"
+                          % (pid, m["id"], cnt, e["file"], want), flush=True)
+                    stale = True
+                    break
                 open(path, "w").write(src.replace(e["old"], e["new"]))
+            if stale:
+                results[pid + "." + m["id"]] = {"status": "stale"}
+                continue
             env = dict(os.environ, PYREX_REPO=tmp, VERIF_NO_EVIDENCE="1", VERIF_SCRATCH=os.path.join(tmp, "_scratch"))
             t0 = time.time()
             cmd = ["/venv/bin/python", os.path.join(HERE, "run.py"), pid, "--tier", "quick",
